@@ -115,6 +115,8 @@ MUTATIONS = {
         "C10", "params-15-flat,tuple-u8-u64", "stack return area of an import wrapper 8 bytes too small for a multi-value result"),
     "revert-flags-lift-fix-934ab68": (
         C, None, None, "C10", "flags-33,flags-9", "git revert of 934ab68 (FlagsLift sign-extends the low word again)"),
+    "revert-free-helper-fix-447cf63": (
+        C, None, None, "C11", "variant-f32-list-u8,prim-u8", "git revert of 447cf63 (exports_*_free skips anonymous list members again)"),
     "revert-dtor-name-fix-50546d4": (
         C, None, None, "C11", "prim-u8", "git revert of 50546d4 ([dtor]multi_word export name again)"),
 }
